@@ -138,6 +138,6 @@ Proof. exact root_table_has_unique_names. Qed.
 Theorem C08_delete_then_define_registers_the_definition :
   forall locatable blacklisted base is_init sc sc' n u,
     NoDup (names sc) ->
-    regs locatable blacklisted base is_init [TDelete [n] u; TDef n] sc = ROk sc' -> scope_get sc' n = Some (mkSym n KFunc).
+    regs locatable blacklisted base is_init [TDelete u [n]; TDef n] sc = ROk sc' -> scope_get sc' n = Some (mkSym n KFunc).
 Proof. exact delete_then_define_registers_the_definition. Qed.
 Print Assumptions C08_module_level_definition_is_the_call_target.
